@@ -680,11 +680,17 @@ func (e *env) main(inClose, closeReturned *bool) {
 			}
 			return nil
 		}
+		var pc any
 		if pr.Lazy {
-			comps = append(comps, simrt.NewLazyProc(pr.Class, pr.OrderClass, pr.Order, core))
+			pc = simrt.NewLazyProc(pr.Class, pr.OrderClass, pr.Order, core)
 		} else {
-			comps = append(comps, simrt.NewProc(pr.Class, pr.OrderClass, pr.Order, core))
+			pc = simrt.NewProc(pr.Class, pr.OrderClass, pr.Order, core)
 		}
+		if pr.OrderRaw != nil {
+			final := pr.Order
+			h.Ord, h.OrdFinal = *pr.OrderRaw, &final
+		}
+		comps = append(comps, pc)
 		compIDs = append(compIDs, pr.ID)
 	}
 	for _, sc := range p.Scanners {
